@@ -28,6 +28,7 @@ import (
 	"runtime/debug"
 	"sort"
 	"strings"
+	"syscall"
 	"unicode/utf8"
 
 	"fortio.org/log"
@@ -423,6 +424,18 @@ type reply struct {
 
 func startChild(cfg, dir string) (*child, error) { return startChildTraced(cfg, dir, "") }
 
+// every process started by the harness sees a sandbox: the places a "helpful" fallback could write to (temporary
+// directory, home, cache and config directories) are directories of the watched scratch tree; dir = <root>/work
+func sandboxEnv(dir string) []string {
+	root := filepath.Dir(dir)
+	return []string{"TMPDIR=" + root + "/tmpdir", "HOME=" + root + "/home", "XDG_CACHE_HOME=" + root + "/home/.cache",
+		"XDG_CONFIG_HOME=" + root + "/home/.config", "XDG_DATA_HOME=" + root + "/home/.local", "XDG_RUNTIME_DIR=" + root + "/tmpdir"}
+}
+
+// unprivileged=true: the child (and strace) run as nobody, so that permission bits are effective (the check itself
+// usually runs as root, for which no directory is read-only)
+var unprivilegedChild = false
+
 var traceCalls = "open,openat,creat,execve,execveat,unlink,unlinkat,rename,renameat,renameat2,mkdir,mkdirat,rmdir,link,linkat," +
 	"symlink,symlinkat,truncate,chmod,fchmodat,stat,lstat,newfstatat"
 
@@ -433,16 +446,19 @@ func startChildTraced(cfg, dir, traceLog string) (*child, error) {
 		return nil, err
 	}
 	cmd := exec.Command(self)
-	cmd.Env = append(os.Environ(), childEnv+"="+cfg)
+	cmd.Env = append(append(os.Environ(), sandboxEnv(dir)...), childEnv+"="+cfg)
 	if traceLog != "" {
 		st, err := exec.LookPath("strace")
 		if err != nil {
 			return nil, err
 		}
 		cmd = exec.Command(st, "-f", "-qq", "-xx", "-s", "16384", "--seccomp-bpf", "-e", "signal=none", "-e", "trace="+traceCalls, "-o", traceLog, self)
-		cmd.Env = append(os.Environ(), childEnv+"="+cfg, traceEnv+"=1")
+		cmd.Env = append(append(os.Environ(), sandboxEnv(dir)...), childEnv+"="+cfg, traceEnv+"=1")
 	}
 	cmd.Dir = dir
+	if unprivilegedChild && os.Geteuid() == 0 {
+		cmd.SysProcAttr = &syscall.SysProcAttr{Credential: &syscall.Credential{Uid: 65534, Gid: 65534}}
+	}
 	cmd.Stderr = io.Discard
 	in, err := cmd.StdinPipe()
 	if err != nil {
@@ -525,11 +541,14 @@ func newTree() (*tree, error) {
 	}
 	root, _ = filepath.EvalSymlinks(root)
 	t := &tree{root: root, work: filepath.Join(root, "work")}
-	for _, d := range []string{"sibling", "work", "work/sub", "work/dir.gr"} {
+	os.Chmod(root, 0o755)
+	for _, d := range []string{"sibling", "work", "work/sub", "work/dir.gr", "tmpdir", "home"} {
 		if err := os.MkdirAll(filepath.Join(root, d), 0o755); err != nil {
 			return t, err
 		}
 	}
+	os.Chmod(filepath.Join(root, "tmpdir"), 0o777) // a fallback into the temporary or home directory must be able to succeed
+	os.Chmod(filepath.Join(root, "home"), 0o777)
 	for _, f := range baseFiles {
 		if err := os.WriteFile(filepath.Join(root, f.rel), []byte(fmt.Sprintf("v=%d\n", f.k)), 0o644); err != nil {
 			return t, err
@@ -669,6 +688,7 @@ type fsReq struct {
 	hasArg bool
 	name   string
 	k      int
+	ff     string // the scenario makes the OS refuse this file ("*": every file) if the request is resolved to it (model: ok = false)
 }
 
 func (r fsReq) argStr() string {
@@ -688,6 +708,7 @@ type fsRunner struct {
 	kOf     map[string]string // token -> name (from work) of the baseline file carrying it
 	traced  bool
 	tcases  []tracedCase
+	scen    string // name of the failure scenario in force ("" = the plain baseline tree)
 }
 
 type tracedCase struct {
@@ -771,6 +792,15 @@ func (fr *fsRunner) do(reqs []fsReq, model bool) error {
 		}
 		if r.op == 'I' {
 			okBit = t.creatable("grol.png")
+		}
+		if r.ff != "" {
+			resolved := "grol.png"
+			if r.op == 'S' {
+				resolved, _ = restateCfg(fr.conf, r.hasArg, r.name)
+			}
+			if r.ff == "*" || r.ff == resolved {
+				okBit = false
+			}
 		}
 		rep, err := fr.ch.ask(line)
 		if err != nil {
@@ -866,6 +896,9 @@ func (fr *fsRunner) do(reqs []fsReq, model bool) error {
 	}
 	fullCase := "FS " + fr.cfg + " " + fr.baseStr + " " + strings.Join(reqStrs, "+")
 	caseStr := "FS " + fr.cfg + " " + strings.Join(reqStrs, "+") // replayable form (the baseline tree is fixed)
+	if fr.scen != "" {
+		caseStr = "FS " + fr.cfg + " scen:" + fr.scen + " " + strings.Join(reqStrs, "+")
+	}
 	var chs []string
 	for _, ch := range changes {
 		name := t.nameFromWork(ch.rel)
@@ -964,18 +997,170 @@ func regOne(c *Ctx, t *tree, cfg string) {
 // curated request sequences (names of the repository's own tests, classic escapes, OS-level failures)
 func curatedSeqs(t *tree, S, L func(string) fsReq, nextK func() int) [][]fsReq {
 	return [][]fsReq{
-		{{'S', false, "", nextK()}}, {{'L', false, "", 0}}, {S("")}, {L("")},
+		{{'S', false, "", nextK(), ""}}, {{'L', false, "", 0, ""}}, {S("")}, {L("")},
 		{S("fib_50")}, {S("fib_50.gr")}, {S("fib_50"), L("fib_50.gr"), L("fib_50")},
 		{L("existing")}, {L("existing.gr")}, {L("g")}, {L("g.gr")}, {S("g")}, {S("g.gr"), L("g")}, {L("Z7_")},
 		{S("existing"), L("existing")}, {S("dir")}, {L("dir")}, {S("nothere/x")}, {L("nothere")},
-		{{'I', false, "", 0}}, {{'X', false, "", 0}}, {{'R', false, "", 0}},
-		{S("a1"), S("a2"), {'I', false, "", 0}, L("a1"), {'X', false, "", 0}},
+		{{'I', false, "", 0, ""}}, {{'X', false, "", 0, ""}}, {{'R', false, "", 0, ""}},
+		{S("a1"), S("a2"), {'I', false, "", 0, ""}, L("a1"), {'X', false, "", 0, ""}},
 		{S("../outside")}, {S("../outside.gr")}, {L("../outside.gr")}, {L("../secret.txt")}, {S("../new.gr")}, {S("../sibling/decoy.gr")},
 		{L("../sibling/decoy.gr")}, {S("sub/inner.gr")}, {L("sub/inner.gr")}, {S("sub/new")}, {L("notes.txt")}, {S("notes.txt")},
 		{S(filepath.Join(t.root, "abs.gr"))}, {L(filepath.Join(t.root, "outside.gr"))},
 		{S("..")}, {S(".")}, {S("~")}, {S(" ")}, {S("\\")}, {S("\xff")}, {S("a\x00b")}, {S("a\x00")}, {S("x.gr\x00")}, {S(".gr.gr")}, {S("..gr")},
 		{S("\u0161")}, {S("\u0161.gr"), L("\u0161")}, {S("ab\u0161")}, {S("\u0130")}, {S("\u4e41")}, {S("\U00010061.gr")}, {S("\u012fx")}, {S("\u012e\u012e\u012fx")}, {L("\u0161")},
 		{S("a.gr.gr")}, {S("grol.png")}, {L("grol.png.gr")}, {S("Z7_")}, {S("Z7_.gr")}, {S(strings.Repeat("n", 252))}, {S(strings.Repeat("n", 253))},
+	}
+}
+
+// ---------------------------------------------------------------- the primary target cannot be created / opened
+// A scenario changes the scratch tree so that the OS refuses the file a request is resolved to; the tree as set up
+// becomes the baseline while the scenario runs.  Whatever the program then does, nothing anywhere in the sandbox
+// (working directory, parents, siblings, $TMPDIR, $HOME) may be created or changed, and the request must fail.
+type scenario struct {
+	name   string
+	unpriv bool // needs permission bits to be effective: only run with a child that is not root
+	setup  func(t *tree) error
+	undo   func(t *tree)
+	seqs   func(S, L func(string) fsReq, nextK func() int) [][]fsReq
+	direct bool // direct oracle only (the flat model's baseline does not describe this tree)
+}
+
+func ffail(r fsReq, target string) fsReq { r.ff = target; return r }
+
+func scenarios() []scenario {
+	w := func(t *tree, n string) string { return filepath.Join(t.work, n) }
+	return []scenario{
+		{name: "target-is-directory",
+			setup: func(t *tree) error { return os.Mkdir(w(t, "grol.png"), 0o755) },
+			undo:  func(t *tree) { os.RemoveAll(w(t, "grol.png")) },
+			seqs: func(S, L func(string) fsReq, nextK func() int) [][]fsReq {
+				return [][]fsReq{{ffail(fsReq{op: 'I'}, "grol.png")}, {ffail(S("dir"), "dir.gr")}, {L("dir")}, {ffail(fsReq{op: 'I'}, "grol.png"), S("afterimg"), L("afterimg")}}
+			}},
+		{name: "dotgr-is-directory", direct: true,
+			setup: func(t *tree) error {
+				os.Remove(w(t, ".gr"))
+				return os.Mkdir(w(t, ".gr"), 0o755)
+			},
+			undo: func(t *tree) {
+				os.RemoveAll(w(t, ".gr"))
+				os.WriteFile(w(t, ".gr"), []byte(t.base["work/.gr"]), 0o644)
+			},
+			seqs: func(S, L func(string) fsReq, nextK func() int) [][]fsReq {
+				return [][]fsReq{{ffail(fsReq{'S', false, "", nextK(), ""}, ".gr")}, {ffail(S(""), ".gr")}, {fsReq{op: 'L'}}, {L("")}}
+			}},
+		{name: "dangling-symlink-and-loop",
+			setup: func(t *tree) error {
+				if err := os.Symlink("nodir/x", w(t, "blocked.gr")); err != nil {
+					return err
+				}
+				if err := os.Symlink("loop.gr", w(t, "loop.gr")); err != nil {
+					return err
+				}
+				return os.Symlink("nodir/grol.png", w(t, "grol.png"))
+			},
+			undo: func(t *tree) {
+				for _, n := range []string{"blocked.gr", "loop.gr", "grol.png"} {
+					os.Remove(w(t, n))
+				}
+			},
+			seqs: func(S, L func(string) fsReq, nextK func() int) [][]fsReq {
+				return [][]fsReq{{ffail(fsReq{op: 'I'}, "grol.png")}, {ffail(S("blocked"), "blocked.gr")}, {L("blocked")}, {ffail(S("loop.gr"), "loop.gr")}, {L("loop")}}
+			}},
+		{name: "cwd-read-only", unpriv: true,
+			setup: func(t *tree) error { return os.Chmod(t.work, 0o555) },
+			undo:  func(t *tree) { os.Chmod(t.work, 0o755) },
+			seqs: func(S, L func(string) fsReq, nextK func() int) [][]fsReq {
+				return [][]fsReq{{ffail(fsReq{op: 'I'}, "grol.png")}, {ffail(S("new1"), "*")}, {ffail(fsReq{'S', false, "", nextK(), ""}, ".gr")}, {ffail(S("existing"), "existing.gr")}, {L("existing")},
+					{ffail(S("new2"), "*"), L("new2"), ffail(fsReq{op: 'I'}, "grol.png")}}
+			}},
+		{name: "target-exists-read-only", unpriv: true,
+			setup: func(t *tree) error {
+				os.Chmod(t.work, 0o777)
+				if err := os.WriteFile(w(t, "grol.png"), []byte("v=105\n"), 0o444); err != nil {
+					return err
+				}
+				if err := os.WriteFile(w(t, "unreadable.gr"), []byte("v=106\n"), 0o000); err != nil {
+					return err
+				}
+				return os.Chmod(w(t, "existing.gr"), 0o444)
+			},
+			undo: func(t *tree) {
+				os.Remove(w(t, "grol.png"))
+				os.Remove(w(t, "unreadable.gr"))
+				os.Chmod(w(t, "existing.gr"), 0o644)
+				os.Chmod(t.work, 0o755)
+			},
+			seqs: func(S, L func(string) fsReq, nextK func() int) [][]fsReq {
+				return [][]fsReq{{ffail(fsReq{op: 'I'}, "grol.png")}, {ffail(S("existing"), "existing.gr")}, {L("existing")}, {L("unreadable")}, {ffail(S("unreadable"), "unreadable.gr")}, {S("new3"), L("new3")}}
+			}},
+	}
+}
+
+// runs the scenarios that fit the child of fr (privileged or not); returns false when the child died
+func (fr *fsRunner) runScenarios(nextK func() int, unpriv bool) bool {
+	c, t := fr.c, fr.t
+	S := func(n string) fsReq { return fsReq{'S', true, n, nextK(), ""} }
+	L := func(n string) fsReq { return fsReq{'L', true, n, 0, ""} }
+	alive := true
+	for _, sc := range scenarios() {
+		if sc.unpriv != unpriv || !alive {
+			continue
+		}
+		oldB, oldD := t.base, t.baseDirs
+		err := sc.setup(t)
+		if err == nil {
+			t.base, t.baseDirs, err = t.snapshot()
+		}
+		if err != nil {
+			c.Fail("harness-scratch-tree", "scenario "+sc.name, err.Error())
+			t.base, t.baseDirs = oldB, oldD
+			sc.undo(t)
+			continue
+		}
+		fr.scen = sc.name
+		for _, sq := range sc.seqs(S, L, nextK) {
+			if err := fr.do(sq, !sc.direct); err != nil {
+				c.Fail("harness-child", "FS "+fr.cfg+" scenario "+sc.name, err.Error())
+				alive = false
+				break
+			}
+			c.Count("scenario-" + sc.name)
+		}
+		fr.scen = ""
+		t.base, t.baseDirs = oldB, oldD
+		sc.undo(t)
+		if rest, _ := t.diffAndRestore(); len(rest) > 0 {
+			c.Fail("harness-scratch-tree", "after scenario "+sc.name, fmt.Sprint(rest))
+		}
+	}
+	return alive
+}
+
+// the restricted configurations once more with a child that is not root, so that a read-only working directory and
+// read-only existing targets really refuse the program
+func unprivStage(c *Ctx, t *tree, cfg, baseStr string, kOf map[string]string, nextK func() int, traced bool) {
+	unprivilegedChild = true
+	defer func() { unprivilegedChild = false }()
+	logPath := ""
+	if traced {
+		logPath = filepath.Join(c.Out, "strace-unpriv-"+cfg+".log")
+		os.Remove(logPath)
+		if f, err := os.OpenFile(logPath, os.O_CREATE|os.O_WRONLY, 0o666); err == nil { // strace (as nobody) must be able to write it
+			f.Close()
+			os.Chmod(logPath, 0o666)
+		}
+	}
+	ch, err := startChildTraced(cfg, t.work, logPath)
+	if err != nil {
+		c.Count("unprivileged-child-unavailable")
+		c.Extra["unprivileged_child_unavailable"] = err.Error()
+		return
+	}
+	fr := &fsRunner{c: c, t: t, ch: ch, cfg: cfg, conf: cfgOf(cfg), baseStr: baseStr, kOf: kOf, traced: traced}
+	fr.runScenarios(nextK, true)
+	ch.stop()
+	if traced {
+		fr.emitTraced(logPath)
 	}
 }
 
@@ -1064,15 +1249,15 @@ func parseTraceMode(logPath, root, work string, marked bool) (map[int][]sysEvent
 		relevant := func(p string) bool { return !filepath.IsAbs(p) || p == root || strings.HasPrefix(p, root+"/") }
 		switch sys {
 		case "open", "openat", "creat":
-			if !relevant(path) {
-				continue
-			}
 			k := "O"
 			switch {
 			case sys == "creat" || strings.Contains(args, "O_CREAT"):
 				k = "C"
 			case strings.Contains(args, "O_WRONLY") || strings.Contains(args, "O_RDWR") || strings.Contains(args, "O_TRUNC") || strings.Contains(args, "O_APPEND"):
 				k = "W"
+			}
+			if k == "O" && !relevant(path) { // reads of system files by the runtime are not the program's; writes anywhere are
+				continue
 			}
 			events[cur] = append(events[cur], sysEvent{k, path})
 		case "execve", "execveat":
@@ -1081,9 +1266,7 @@ func parseTraceMode(logPath, root, work string, marked bool) (map[int][]sysEvent
 			// looking at a name is not an access to its content
 		default:
 			for _, st := range strs {
-				if p := unhexEscapes(st[1]); relevant(p) {
-					events[cur] = append(events[cur], sysEvent{"M:" + sys, p})
-				}
+				events[cur] = append(events[cur], sysEvent{"M:" + sys, unhexEscapes(st[1])})
 			}
 		}
 	}
@@ -1102,8 +1285,8 @@ func traceStage(c *Ctx, t *tree, cfg, baseStr string, kOf map[string]string, nex
 		return
 	}
 	fr := &fsRunner{c: c, t: t, ch: ch, cfg: cfg, conf: cfgOf(cfg), baseStr: baseStr, kOf: kOf, traced: true}
-	S := func(n string) fsReq { return fsReq{'S', true, n, nextK()} }
-	L := func(n string) fsReq { return fsReq{'L', true, n, 0} }
+	S := func(n string) fsReq { return fsReq{'S', true, n, nextK(), ""} }
+	L := func(n string) fsReq { return fsReq{'L', true, n, 0, ""} }
 	all := curatedSeqs(t, S, L, nextK)
 	enumerate(1, func(b []byte) {
 		all = append(all, []fsReq{S(string(b)), L(string(b))}, []fsReq{S(string(b) + ext), L(string(b) + ext)})
@@ -1114,7 +1297,14 @@ func traceStage(c *Ctx, t *tree, cfg, baseStr string, kOf map[string]string, nex
 			break
 		}
 	}
+	fr.runScenarios(nextK, false)
 	ch.stop()
+	fr.emitTraced(logPath)
+}
+
+// compares the recorded system calls of a traced child with the model's access log (FSL cases) and checks them directly
+func (fr *fsRunner) emitTraced(logPath string) {
+	c, t, cfg := fr.c, fr.t, fr.cfg
 	events, done, err := parseTrace(logPath, t.root, t.work)
 	if err != nil {
 		c.Count("trace-unavailable")
@@ -1290,7 +1480,7 @@ func scriptStage(c *Ctx, t *tree, nextK func() int, only string) {
 			cmd = exec.Command(bin, args...)
 		}
 		cmd.Dir = t.work
-		cmd.Env = append(os.Environ(), "GOMEMLIMIT=1GiB")
+		cmd.Env = append(append(os.Environ(), sandboxEnv(t.work)...), "GOMEMLIMIT=1GiB")
 		outb, _ := cmd.CombinedOutput() // a failing load makes the exit status non-zero: not an error of the run
 		out := string(outb)
 		c.Eval()
@@ -1394,6 +1584,21 @@ func scriptStage(c *Ctx, t *tree, nextK func() int, only string) {
 				}
 			}
 		}
+	}
+	// image.save / save when the primary target cannot be created (a directory is in the way)
+	for _, sc := range scenarios()[:1] {
+		oldB, oldD := t.base, t.baseDirs
+		if err := sc.setup(t); err == nil {
+			t.base, t.baseDirs, _ = t.snapshot()
+			for _, v := range variants {
+				for _, l := range locs[:2] {
+					runOne(v, "plain", "rel", l, scrProg{"image-save-blocked", "image.new(\"c17\",2,2)\nimage.save(\"c17\")", "I:1:" + hxs("png") + ":0"})
+					runOne(v, "plain", "rel", l, scrProg{"save-dir-blocked", "v=1\nsave(\"dir\")", "S:" + hxs("dir") + ":" + hxs("1") + ":0"})
+				}
+			}
+		}
+		t.base, t.baseDirs = oldB, oldD
+		sc.undo(t)
 	}
 	// load() without argument when ./.gr is missing and a .gr sits next to the script
 	dotgr := t.base["work/.gr"]
@@ -1647,8 +1852,8 @@ func runC17(c *Ctx) {
 			}
 			return false
 		}
-		S := func(n string) fsReq { return fsReq{'S', true, n, nextK()} }
-		L := func(n string) fsReq { return fsReq{'L', true, n, 0} }
+		S := func(n string) fsReq { return fsReq{'S', true, n, nextK(), ""} }
+		L := func(n string) fsReq { return fsReq{'L', true, n, 0, ""} }
 		seqs := curatedSeqs(t, S, L, nextK)
 		dead := false
 		for _, sq := range seqs {
@@ -1678,6 +1883,11 @@ func runC17(c *Ctx) {
 			})
 		}
 		if dead {
+			ch.stop()
+			continue
+		}
+		// the OS refuses the primary target (directory in the way, dangling symlink, ...): nothing may appear elsewhere
+		if !fr.runScenarios(nextK, false) {
 			ch.stop()
 			continue
 		}
@@ -1725,6 +1935,11 @@ func runC17(c *Ctx) {
 	for _, cfg := range []string{"1100", "1110", "0000"} {
 		traceStage(c, t, cfg, baseStr, kOf, nextK)
 	}
+	// ---- the same restricted configurations with a child that is not root: read-only working directory, read-only targets
+	_, haveStrace := exec.LookPath("strace")
+	for _, cfg := range []string{"1100", "1110", "0000"} {
+		unprivStage(c, t, cfg, baseStr, kOf, nextK, haveStrace == nil)
+	}
 	// ---- SCR: the real binary on script files located outside the working directory
 	scriptStage(c, t, nextK, "")
 	reportIOSites(c)
@@ -1756,6 +1971,25 @@ func c17Replay(c *Ctx, cs string) {
 			fmt.Println("scratch tree:", err)
 			return
 		}
+		var sc *scenario
+		if strings.HasPrefix(f[2], "scen:") {
+			for _, x := range scenarios() {
+				if x.name == strings.TrimPrefix(f[2], "scen:") {
+					x := x
+					sc = &x
+				}
+			}
+		}
+		if sc != nil {
+			unprivilegedChild = sc.unpriv
+			oldB, oldD := t.base, t.baseDirs
+			if err := sc.setup(t); err != nil {
+				fmt.Println("scenario:", err)
+				return
+			}
+			t.base, t.baseDirs, _ = t.snapshot()
+			defer func() { t.base, t.baseDirs = oldB, oldD; sc.undo(t) }()
+		}
 		ch, err := startChild(f[1], t.work)
 		if err != nil {
 			fmt.Println("child:", err)
@@ -1763,6 +1997,9 @@ func c17Replay(c *Ctx, cs string) {
 		}
 		defer ch.stop()
 		fr := &fsRunner{c: c, t: t, ch: ch, cfg: f[1], conf: cfgOf(f[1]), baseStr: "@", kOf: map[string]string{}}
+		if sc != nil {
+			fr.scen = sc.name
+		}
 		for rel, content := range t.base {
 			fr.kOf[token(content)] = t.nameFromWork(rel)
 		}
